@@ -248,7 +248,7 @@ func init() {
 			} else {
 				for a := 1; a <= 3; a++ {
 					for b := a + 1; b <= 3; b++ {
-						add(fmt.Sprintf("%s-vs-%s-k4", idxName[a], idxName[b]), merge(base, p("k", 4, "ops", opPut|opDelete, "index", a, "shards", 1, "b_index", b, "b_shards", 3, "iterspan", 1, "vlens", 2)))
+						add(fmt.Sprintf("%s-vs-%s-k4", idxName[a], idxName[b]), merge(base, p("k", 4, "ops", opPut|opDelete, "index", a, "shards", 1, "b_index", b, "b_shards", 3, "iterspan", 1, "vlens", 2, "cmpfiles", 1)))
 						add(fmt.Sprintf("%s-vs-%s-k3-restart", idxName[a], idxName[b]), merge(base, p("k", 3, "ops", opPut|opDelete|opRestart, "index", a, "shards", 1, "b_index", b, "b_shards", 3)))
 					}
 				}
